@@ -8,7 +8,7 @@ wt=$(mktemp -d /tmp/seedwt.XXXXXX); rmdir "$wt"
 git -C /repo worktree add -q --detach "$wt" HEAD || exit 2
 keep=$(mktemp -d /tmp/evidence.keep.XXXXXX); cp -r evidence/. "$keep"/
 trap 'cp -r "$keep"/. evidence/; rm -rf "$keep"; git -C /repo worktree remove --force "$wt" 2>/dev/null; git checkout -- lean/SynapModel/Generated 2>/dev/null' EXIT
-{ git -C "$wt" apply "$d/patch.diff" 2>/dev/null || git -C "$wt" apply -3 "$d/patch.diff" 2>/dev/null || git -C "$wt" apply -C1 "$d/patch.diff"; } || { echo "patch does not apply"; exit 2; }
+{ git -C "$wt" apply "$d/patch.diff" 2>/dev/null || { git -C "$wt" apply -3 "$d/patch.diff" 2>/dev/null || { git -C "$wt" reset -q --hard HEAD; false; }; } || git -C "$wt" apply -C1 "$d/patch.diff"; } || { echo "patch does not apply"; exit 2; }
 for p in "$@"; do for s in ${SEEDS:-0}; do
   out=$(SYNAPGRAD_REPO="$wt" VERIF_SEED=$s ./check "$p" --tier ${TIER:-quick} 2>&1); rc=$?
   echo "rc=$rc seed=$s $(echo "$out" | grep -c '^VIOLATION') violation line(s): $(echo "$out" | tail -1)"
